@@ -23,7 +23,7 @@ impl Property for C11 {
          oracle = objective evaluated exactly on ALL 2^n assignments + multilinear reduction (unique representation); non-trivial = n>=3 and (a monomial with a repeated id or a cancelling pair); distinct = sha256(instance, mode)"
     }
     fn required_labels(&self) -> Vec<String> {
-        ["x^2", "cancel", "deg>2-collapses-to-pair", "refusal=constraint", "refusal=maximize", "refusal=non-binary", "refusal=qubo-3-distinct", "refusal=qubo-3-distinct-with-a-repeated-id", "format=pubo", "format=qubo", "regime=general", "regime=dyadic", "removed-constraint-present", "objective-absent", "unused-non-binary-variable", "non-binary-variable-in-removed-constraint", "id=u64::MAX", "objective-absent+refusal", "largest-id-at-word-boundary", "sweep=many-raw-terms", "refusal=constraint-with-zero-function", "shuffled-variable-list"].iter().map(|s| s.to_string()).collect()
+        ["x^2", "cancel", "deg>2-collapses-to-pair", "refusal=constraint", "refusal=maximize", "refusal=non-binary", "refusal=qubo-3-distinct", "refusal=qubo-3-distinct-with-a-repeated-id", "format=pubo", "format=qubo", "regime=general", "regime=dyadic", "removed-constraint-present", "objective-absent", "unused-non-binary-variable", "non-binary-variable-in-removed-constraint", "id=u64::MAX", "objective-absent+refusal", "largest-id-at-word-boundary", "sweep=many-raw-terms", "refusal=constraint-with-zero-function", "shuffled-variable-list", "recorded-parameter-id-is-a-binary-id"].iter().map(|s| s.to_string()).collect()
     }
     fn cases(&self, tier: Tier) -> usize {
         match tier {
@@ -258,6 +258,17 @@ impl Property for C11 {
             rc.removed_reason = "penalty".into();
             inst.removed_constraints.push(rc);
             ctx.label("removed-constraint-present");
+        }
+        // values recorded by an earlier with_parameters; their ids may since have been given to binaries created later
+        // (log_encode numbers its bits from the same counter as the penalty weights): history, not a definition
+        if t.p(40) {
+            let mut p = v1::Parameters::default();
+            p.entries.insert(ids[t.choice(ids.len())], 2.5);
+            if t.coin() {
+                p.entries.insert(next + 9, 1.0);
+            }
+            inst.parameters = Some(p);
+            ctx.label("recorded-parameter-id-is-a-binary-id");
         }
         let mut expect_err = false;
         match refusal {
